@@ -135,6 +135,8 @@ def main():
     shutil.copy(os.path.join(src, "demo_test.rs"), os.path.join(dst, "demo_test.rs"))
     # detection on the patched scratch tree
     subprocess.run(["rsync", "-a", "--exclude", "target", "--exclude", "Cargo.toml", "--exclude", ".cargo", "/verif/harness/", gvh_dir + "/"], check=True)
+    toml = open("/verif/harness/Cargo.toml").read().replace("/repo/", geo + "/")
+    open(os.path.join(gvh_dir, "Cargo.toml"), "w").write(toml)
     rc, out = sh(["cargo", "build", "--release", "--offline"], cwd=gvh_dir, env=dict(ENV, RUSTFLAGS="--cfg georust_geo_verif"))
     if rc != 0:
         print("harness does not build against the patched tree:\n", out[-1500:])
